@@ -148,9 +148,11 @@ impl<Id: Eq + PartialEq + Hash + Clone> GenericRateLimiter<Id> {
             // Calculate the new balance.
             let duration_since = now.duration_since(last_refill);
             let new_tokens = duration_since
-                .as_micros()
-                // Note that the use of `as_micros` limits the number of tokens to 10^6 per second.
-                .checked_div(self.interval.as_micros())
+                .as_nanos()
+                // Divide at the full resolution of `Duration`. Truncating both sides to
+                // microseconds hands out too many tokens whenever `interval` is not a whole
+                // number of microseconds (and `u32::MAX` tokens when it is below one).
+                .checked_div(self.interval.as_nanos())
                 .and_then(|i| i.try_into().ok())
                 .unwrap_or(u32::MAX);
             let new_balance = balance.checked_add(new_tokens).unwrap_or(u32::MAX);
